@@ -78,6 +78,14 @@ def call_method(obj, cls, name, args, hooks, start_after=None):
         _DEPTH[0] -= 1
 
 
+class _Break(Exception):
+    pass
+
+
+class _Continue(Exception):
+    pass
+
+
 class _Return(Exception):
     def __init__(self, v):
         self.v = v
@@ -127,6 +135,22 @@ def _block(stmts, env, hooks):
             _block(s.body if _truth(c, s.test) else s.orelse, env, hooks)
         elif isinstance(s, ast.Return):
             raise _Return(_eval(s.value, env, hooks) if s.value is not None else None)
+        elif isinstance(s, ast.For) and not s.orelse:
+            seq = _eval(s.iter, env, hooks)
+            if not isinstance(seq, (list, tuple)):
+                raise AnalysisError("absint: loop over a non-concrete sequence `%s`" % src(s.iter))
+            for item in seq:
+                _bind(s.target, item, env)
+                try:
+                    _block(s.body, env, hooks)
+                except _Break:
+                    break
+                except _Continue:
+                    continue
+        elif isinstance(s, ast.Break):
+            raise _Break()
+        elif isinstance(s, ast.Continue):
+            raise _Continue()
         else:
             raise AnalysisError("absint: unsupported statement `%s`" % src(s)[:60])
 
@@ -160,6 +184,17 @@ def _eval(e, env, hooks):
             return env[e.id]
         if e.id in ("True", "False", "None"):
             return {"True": True, "False": False, "None": None}[e.id]
+        k = env.get("__class__")
+        if k is not None:
+            # a class of the module the running method belongs to: its literal class attributes (`Variance.COVARIANT`)
+            for st in k.module.tree.body:
+                if isinstance(st, ast.ClassDef) and st.name == e.id:
+                    ref = AObj("class " + e.id)
+                    for b in st.body:
+                        if isinstance(b, ast.Assign) and len(b.targets) == 1 and isinstance(b.targets[0], ast.Name) and \
+                                isinstance(b.value, ast.Constant):
+                            ref.attrs[b.targets[0].id] = b.value.value
+                    return ref
         raise AnalysisError("absint: unbound name %s" % e.id)
     if isinstance(e, ast.Tuple):
         return tuple(_eval(x, env, hooks) for x in e.elts)
@@ -207,6 +242,9 @@ def _eval(e, env, hooks):
             return a in b
         if isinstance(op, ast.NotIn):
             return a not in b
+        if isinstance(op, (ast.Lt, ast.LtE, ast.Gt, ast.GtE)) and all(
+                isinstance(x, (int, float)) and not isinstance(x, bool) for x in (a, b)):
+            return {ast.Lt: a < b, ast.LtE: a <= b, ast.Gt: a > b, ast.GtE: a >= b}[type(op)]
     if isinstance(e, (ast.GeneratorExp, ast.ListComp)) and len(e.generators) == 1:
         g = e.generators[0]
         seq = _eval(g.iter, env, hooks)
